@@ -1,0 +1,11 @@
+//go:build verif
+// +build verif
+
+package net
+
+import "com.tuntun.rangers/node/src/consensus/model"
+
+// VerifC15MarshalVerifyMessage exposes the sender-side encoder of a verify message.
+func VerifC15MarshalVerifyMessage(m *model.ConsensusVerifyMessage) ([]byte, error) {
+	return marshalConsensusVerifyMessage(m)
+}
